@@ -225,6 +225,10 @@ fn run(ctx: &Ctx) -> Run {
         // (2) random / constructed cells at every resolution x all targets in range
         let n = ctx.n(400_000, 8_000_000) / threads as u64;
         for _ in 0..n {
+            // error paths must leave nothing behind: now and then a few rejected calls precede the judged ones
+            if rng.below(64) == 0 {
+                crate::orc::failed_call_history(&mut rng);
+            }
             let res = rng.below(31) as i32 - 1;
             let c = gen::random_cell(&mut rng, res);
             let max_t = (res..=MAX_RES).take_while(|t| fanout(res, *t) <= MAX_FANOUT).last().unwrap();
